@@ -18,30 +18,37 @@ from . import orch
 from . import scen
 
 PROPS = {
-    "C01": {"scenarios": ["roundtrip.uvl", "roundtrip.uvl", "roundtrip.uvl", "roundtrip.mixed"]},
+    "C01": {"scenarios": ["roundtrip.uvl", "roundtrip.uvl", "roundtrip.uvl", "roundtrip.mixed",
+                          "threads.uvl"]},
     "C02": {"scenarios": ["roundtrip.json", "roundtrip.fide", "roundtrip.glencoe",
                           "roundtrip.afm", "roundtrip.uvl", "third-party", "uvl-peer",
                           "roundtrip.mixed", "serialise"]},
-    "C04": {"scenarios": ["uvl-peer", "uvl-peer", "roundtrip.uvl"]},
+    "C04": {"scenarios": ["uvl-peer", "uvl-peer", "roundtrip.uvl", "threads.uvl-docs"]},
     "C05": {"scenarios": ["roundtrip.json", "roundtrip.json", "roundtrip.json",
-                          "roundtrip.mixed"]},
-    "C06": {"scenarios": ["roundtrip.afm", "roundtrip.afm", "roundtrip.afm", "roundtrip.mixed"]},
+                          "roundtrip.mixed", "threads.json"]},
+    "C06": {"scenarios": ["roundtrip.afm", "roundtrip.afm", "roundtrip.afm", "roundtrip.mixed",
+                          "threads.afm"]},
     "C07": {"scenarios": ["roundtrip.fide", "roundtrip.fide", "roundtrip.fide",
-                          "roundtrip.mixed"]},
+                          "roundtrip.mixed", "threads.fide"]},
     "C08": {"scenarios": ["roundtrip.glencoe", "roundtrip.glencoe", "roundtrip.glencoe",
-                          "roundtrip.mixed"]},
-    "C09": {"scenarios": ["third-party"]},
-    "C12": {"scenarios": ["serialise"]},
-    "C17": {"scenarios": ["metrics-session"]},
-    "C19": {"scenarios": ["ops-session", "metrics-session"]},
+                          "roundtrip.mixed", "threads.glencoe"]},
+    "C09": {"scenarios": ["third-party", "third-party", "third-party", "threads.third"]},
+    "C12": {"scenarios": ["serialise", "serialise", "serialise", "threads.writers"]},
+    "C17": {"scenarios": ["metrics-session", "metrics-session", "metrics-session",
+                          "threads.ops"]},
+    "C19": {"scenarios": ["ops-session", "metrics-session", "ops-session", "metrics-session",
+                          "threads.ops"]},
 }
 
 REAL = ["flamapy.metamodels.fm_metamodel (from the working tree of /repo)", "flamapy.core",
         "antlr4 runtime + uvl + afmparser parsers", "json, xml.etree, xml.dom.minidom",
         "CPython io.TextIOWrapper / BufferedWriter / BufferedReader layers",
         "the interpreter itself: one fresh process per segment with its own PYTHONHASHSEED, "
-        "locale and PYTHONUTF8"]
-STUB = ["raw block device: RawIOBase over real temp files consulting the fault plan",
+        "locale and PYTHONUTF8",
+        "caller threads: real threading.Thread objects running the real library code"]
+STUB = ["the interpreter's thread switching: lanes run one at a time, parked and released by "
+        "fmsim/sched.py at line events of library code according to the plan's switch list",
+        "raw block device: RawIOBase over real temp files consulting the fault plan",
         "default text encoding handed to encoding-less open() calls",
         "the random module as seen by GenerateRandomAttribute (SimRandom)",
         "third-party tools: peer emitters and the shipped corpus copied onto the disk"]
@@ -119,6 +126,7 @@ def check_property(prop, tier, seconds, max_plans, workers):
     histories = {}
     nontrivial = {}
     samples = []
+    interleavings = {}
     unknown_groups = {}
     digests = []
     harness_errors = []
@@ -162,6 +170,8 @@ def check_property(prop, tier, seconds, max_plans, workers):
             for key in sorted(info["stats"]):
                 stats["disk"][key] = stats["disk"].get(key, 0) + info["stats"][key]
             digests.append((plan, info["obs_digest"]))
+            for sd in info.get("scheds", []):
+                interleavings[sd] = True
             for hist in info["histories"]:
                 hd = orch.digest(hist)
                 if hd not in histories:
@@ -252,6 +262,11 @@ def check_property(prop, tier, seconds, max_plans, workers):
                     "with their oracles (all replicas).",
             "samples": samples,
             "distinct_histories": len(histories),
+            "distinct_thread_interleavings": len(interleavings),
+            "thread_interleaving_rule": "caller-thread (CONC) operations only: one interleaving = "
+                                        "the sequence of (step number, from lane, to lane, "
+                                        "file:line) of every switch the scheduler made between "
+                                        "the lanes; distinct = distinct sequences",
             "runs": stats["plans"], "segments": stats["segments"], "operations": stats["ops"],
             "runs_per_hour": int(stats["plans"] * 3600 / max(wall, 1e-6)),
             "seeds_per_hour": int(stats["plans"] * 3600 / max(wall, 1e-6)),
